@@ -4,6 +4,19 @@ One case = one batch of invocations that are awaited CONCURRENTLY on one event l
 one).  Per invocation the callee's behaviour is scripted (return / raise a class / terminate the process in several
 ways; small or large, picklable or not, sync or coroutine function), optionally the child is killed from outside at a
 chosen point (right after the fork, while the callee runs, in the middle of sending a large result).
+Two further input dimensions (implementation-only: neither is in the vocabulary of the Coq model):
+* `nest`: the callee delegates a part of its work to a process of ITS OWN - a nested calculate_in_subprocess /
+  @in_subprocess invocation (one or two levels deep) or a plain multiprocess.Process - and puts what that process
+  computed into its result / exception.  The reference ("what the function returns when run with the same arguments")
+  is established by running the same delegation directly in this process first.
+  `glife` > 0: that process lives for glife ms and the child is killed (kill = in_callee) while it lives; observed: whether it
+  had run to its own end when the awaiting task was handed the outcome (open finding C17-K6: it inherits the write end,
+  so the parent sees EOF only when it has gone too).
+* `sig`: the application (this process) has its own SIGTERM and SIGINT dispositions installed while the batch runs
+  (a Python handler that only records the signal, or SIG_IGN); every forked child inherits them.  The callee of a
+  cancelled invocation computes "for ever" and watches the parent's ticker meanwhile: when the ticker stands still
+  for STALL seconds it reports that (`stalled`) and gives up, so a loop thread that is held by the teardown of a
+  cancelled await costs STALL seconds, not the hard watchdog.
 
 Observed (canonical, no timings): the awaited outcome and whether it is THIS invocation's own object (token), the pid the
 callee saw, keyword/positional arguments as the callee saw them, whether the parent's event loop kept ticking while the
@@ -22,6 +35,10 @@ import asyncio, contextvars, fcntl, gc, json, mmap, os, signal, struct, sys, ter
 W_ASYNC = float(os.environ.get('PV_C17_WATCHDOG', '25'))
 W_HARD = W_ASYNC + 20.0
 TICK_DEADLINE = 20.0
+G_OFF = 1024                     # SHM[G_OFF + i]: state of the process started by the callee of invocation i
+STALL = float(os.environ.get('PV_C17_STALL', '12'))      # ticker period is 2 ms
+STALL_AGAIN = 2.0                # after a first stall has been established in this worker (SHM[16])
+NEST_DEADLINE = 20.0
 PAD_BIG = 300_000
 PAD_MIDSEND = 4_000_000
 
@@ -31,7 +48,7 @@ import subproc_callees as SC
 import excs
 
 ME = os.getpid()
-SHM = mmap.mmap(-1, 8192)            # shared with every forked child: [0:8] ticker count, [64+i] flag of invocation i
+SHM = mmap.mmap(-1, 8192)            # shared with every forked child: [0:8] ticker count, [16] a stall was seen, [64+i] flag of invocation i
 CUR = contextvars.ContextVar('c17_inv', default=None)
 REG = {}
 LOCAL_CLS = {(0, 11, 0): ChildProcessError}
@@ -43,6 +60,7 @@ class HardTimeout(BaseException):
 
 
 ESCAPED = object()
+SIGNALS_SEEN = []
 
 
 def _alarm(signum, frame):
@@ -146,25 +164,136 @@ def start_mid_send_killer():
     threading.Thread(target=run, daemon=True).start()
 
 
+
+# ---- callees that start processes of their own ---------------------------------------------------------------------------
+def leaf_value(x):
+    return (int(x) * 7919 + 13) % 1000003
+
+
+def make_leaf(idx=None, glife=0, use_async=False):
+    """what runs in the process that the callee starts; glife > 0: it lives for glife ms (announced and concluded in the
+    shared page: 1 = started, 2 = has run to its own end)"""
+    def leaf(x):
+        if glife and idx is not None:
+            SHM[G_OFF + idx] = 1
+            time.sleep(glife / 1000.0)
+            SHM[G_OFF + idx] = 2
+        return {'pid': os.getpid(), 'val': leaf_value(x)}
+    if not use_async:
+        return leaf
+
+    async def aleaf(x):
+        await asyncio.sleep(0)
+        return leaf(x)
+    return aleaf
+
+
+def nested_process(x, leaf):
+    """a part of the work is done by a worker process of the callee's own (plain multiprocess, no pedantic)"""
+    rx, tx = multiprocess.Pipe(duplex=False)
+
+    def work():
+        tx.send(leaf(x))
+    p = multiprocess.Process(target=work)
+    p.start()
+    tx.close()
+    try:
+        if not rx.poll(NEST_DEADLINE):
+            p.kill()
+            raise TimeoutError('the worker process of the callee did not answer')
+        return rx.recv()
+    finally:
+        p.join()
+        rx.close()
+
+
+async def nested_insub(x, via, depth, leaf):
+    """a part of the work is done by a nested invocation of the implementation under test"""
+    if depth > 1:
+        async def mid(y):
+            r = await nested_insub(y, via, depth - 1, leaf)
+            return {'pid': os.getpid(), 'val': r['val'], 'below': r['pid']}
+        mid.__name__ = 'mid_%d' % depth
+        f = mid
+    else:
+        f = leaf
+    if via == 'deco':
+        return await M.in_subprocess(f)(x)
+    return await M.calculate_in_subprocess(f, x)
+
+
+def nested_sync(inv, x, idx=None):
+    """the delegation as a synchronous function: its own event loop for the nested invocations"""
+    glife = inv.get('glife', 0) if idx is not None else 0
+    if inv['nest'] == 'process':
+        return nested_process(x, make_leaf(idx, glife))
+    loop = asyncio.new_event_loop()
+    try:
+        return loop.run_until_complete(nested_insub(x, inv['via'], 2 if inv['nest'] == 'insub2' else 1,
+                                                    make_leaf(idx, glife, inv['async'])))
+    finally:
+        loop.close()
+
+
+NEST_REF = {}
+
+
+def nest_reference(inv):
+    """does the delegation work when it is run directly (in this process, outside any in_subprocess invocation)?"""
+    key = (inv['nest'], inv['via'], bool(inv['async']))
+    if key not in NEST_REF:
+        try:
+            r = nested_sync(inv, 5)
+            NEST_REF[key] = bool(isinstance(r, dict) and r.get('val') == leaf_value(5) and r.get('pid') not in (None, ME))
+        except BaseException:
+            NEST_REF[key] = False
+    return NEST_REF[key]
+
+
+def nested_good(inv, info):
+    n = info.get('nested')
+    return bool(isinstance(n, dict) and n.get('val') == leaf_value(inv['nonce'])
+                and n.get('pid') not in (None, ME, info.get('pid'))
+                and (inv['nest'] != 'insub2' or n.get('below') not in (None, ME, info.get('pid'), n.get('pid'))))
+
+
 def make_callee(inv, idx):
-    def body(token, kw):
+    nest = inv.get('nest', 'none')
+
+    def quiet():
         if inv['out'] != 'ok' or not inv['pick'] or inv['kill'] != 'none' or set(inv['kw']) & {'tx', 'fun', 'func'}:
             try:
                 dn = os.open(os.devnull, os.O_WRONLY)
                 os.dup2(dn, 2)
             except OSError:
                 pass
+
+    def body(token, kw, nested=None):
+        quiet()
         SHM[64 + idx] = 1
         seen = None
         if inv['ticks']:
             seen = wait_ticks(3)
         if inv['dur']:
             time.sleep(inv['dur'] / 1000.0)
+        if nest != 'none' and nested is None:
+            nested = nested_sync(inv, inv['nonce'], idx)
         if inv['kill'] == 'in_callee' or inv.get('cancel') in ('in_callee', 'wait_for'):
             # a long computation: ends only by being killed (by the harness, or by an implementation that
             # terminates the child of a cancelled await); gives up by itself in the end
+            # Meanwhile it watches the parent's ticker: a ticker that stands still means that the loop thread of the
+            # parent is held (e.g. by a synchronous wait for THIS process to end) - reported, and the callee gives up.
+            # Once one callee of this worker has established a stall, the others do not pay the full period again.
+            last, t_last = ticks(), time.time()
             for _ in range(int(W_HARD * 100) + 500):
                 time.sleep(0.01)
+                n = ticks()
+                if n != last:
+                    last, t_last = n, time.time()
+                elif time.time() - t_last > (STALL if SHM[16] == 0 else STALL_AGAIN):
+                    SHM[64 + idx] = 3
+                    SHM[16] = 1
+                    os._exit(97)
             os._exit(99)
         pid = os.getpid()
         pad = b''
@@ -183,6 +312,8 @@ def make_callee(inv, idx):
             time.sleep(60)
             os._exit(98)
         info = {'token': token, 'kw': kw, 'pid': pid, 'ticks': seen, 'pad': pad, 'extra': extra}
+        if nest != 'none':
+            info['nested'] = nested
         if inv['out'] == 'raise':
             cls = exc_class(inv['exc'])
             raise cls(info)       # SystemExit(info): what sys.exit(info) raises
@@ -193,7 +324,12 @@ def make_callee(inv, idx):
     if inv['async']:
         async def callee(token, **kw):
             await asyncio.sleep(0)
-            return body(token, kw)
+            quiet()
+            nested = None
+            if nest in ('insub', 'insub2'):
+                nested = await nested_insub(inv['nonce'], inv['via'], 2 if nest == 'insub2' else 1,
+                                            make_leaf(idx, inv.get('glife', 0), True))
+            return body(token, kw, nested)
     else:
         def callee(token, **kw):
             return body(token, kw)
@@ -229,12 +365,14 @@ def observe(idx):
     r = REG[idx]
     r['open_ends'] = len([1 for w in r['conns'] if w() is not None and not w().closed])
     r['unreaped'] = [child_state(p) for p in r['pids'] if child_state(p) is not None]
+    r['g_state'] = SHM[G_OFF + idx]
 
 
 async def kill_when_entered(idx):
     t0 = time.time()
     while time.time() - t0 < W_ASYNC:
-        if SHM[64 + idx] == 1 and REG[idx]['pids']:
+        # (a callee with a long-lived process of its own is killed while that process lives)
+        if (SHM[G_OFF + idx] >= 1 if REG[idx].get('glife') else SHM[64 + idx] == 1) and REG[idx]['pids']:
             try:
                 os.kill(REG[idx]['pids'][0], signal.SIGKILL)
                 REG[idx]['killed'] = True
@@ -248,12 +386,14 @@ def classify(inv, token, kind, obj):
     """canonical outcome: [code, path]; 1 own return value, 2 other return value, 3 own exception, 4 the exception inside
     the SubprocessError the callee returned, 5 other exception of class `path`, 6 ANOTHER invocation's exception,
     7 ANOTHER invocation's return value"""
-    d = {'final': None, 'pid_differs': None, 'args_ok': None, 'ticks_seen': None}
+    d = {'final': None, 'pid_differs': None, 'args_ok': None, 'ticks_seen': None, 'nested_ok': None}
 
     def own(info):
         d['pid_differs'] = info.get('pid') not in (None, ME)
         d['args_ok'] = info.get('kw') == inv['kw']
         d['ticks_seen'] = info.get('ticks')
+        if inv.get('nest', 'none') != 'none' and NEST_REF.get((inv['nest'], inv['via'], bool(inv['async']))):
+            d['nested_ok'] = nested_good(inv, info)
 
     if kind == 'ret':
         if isinstance(obj, dict) and 'token' in obj:
@@ -288,7 +428,7 @@ def classify(inv, token, kind, obj):
 async def run_one(idx, inv):
     CUR.set(idx)
     REG[idx] = {'pids': [], 'conns': [], 'kill': inv['kill'], 'killed': inv['kill'] == 'mid_send', 'open_ends': None,
-                'unreaped': None}
+                'unreaped': None, 'glife': inv.get('glife', 0) if inv.get('nest', 'none') != 'none' else 0, 'g_state': None}
     token = [idx, inv['nonce']]
     callee = make_callee(inv, idx)
     killer = asyncio.ensure_future(kill_when_entered(idx)) if inv['kill'] == 'in_callee' else None
@@ -416,7 +556,12 @@ async def run_one(idx, inv):
     task = None
     reg = REG[idx]
     out.update({'killed': bool(reg['killed']), 'open_ends': reg['open_ends'], 'unreaped': reg['unreaped'],
-                'n_children': len(reg['pids']), 'wraps_ok': wraps_ok, 'done_at': ticks()})
+                'n_children': len(reg['pids']), 'wraps_ok': wraps_ok, 'done_at': ticks(),
+                'stalled': SHM[64 + idx] == 3,
+                # at the moment the outcome was handed over: had the process started by the callee run to its own end?
+                'grandchild_ended': (reg['g_state'] == 2) if reg.get('glife') else None})
+    if inv.get('nest', 'none') != 'none':
+        out['nest_ref'] = NEST_REF.get((inv['nest'], inv['via'], bool(inv['async'])))
     return out
 
 
@@ -448,8 +593,28 @@ def run_batch(case):
     REG.clear()
     for i in range(len(invs)):
         SHM[64 + i] = 0
+        SHM[G_OFF + i] = 0
+    for inv in invs:
+        inv.setdefault('nest', 'none')
+        inv.setdefault('sig', 'none')
+    signal.setitimer(signal.ITIMER_REAL, W_HARD, 5.0)
+    try:
+        for inv in invs:
+            if inv['nest'] != 'none':
+                nest_reference(inv)
+    except HardTimeout:
+        pass
+    finally:
+        signal.setitimer(signal.ITIMER_REAL, 0)
     gc.collect()
     fd0 = count_fds()
+    # the application's own signal dispositions (process-wide, inherited by every forked child)
+    sigs = set(inv['sig'] for inv in invs) - {'none'}
+    saved = {}
+    if sigs:
+        disp = (lambda signum, frame: SIGNALS_SEEN.append(signum)) if 'handler' in sigs else signal.SIG_IGN
+        for sg in (signal.SIGTERM, signal.SIGINT):
+            saved[sg] = signal.signal(sg, disp)
     signal.setitimer(signal.ITIMER_REAL, W_HARD, 5.0)
     try:
         try:
@@ -460,6 +625,8 @@ def run_batch(case):
             loop_broken = True
     finally:
         signal.setitimer(signal.ITIMER_REAL, 0)
+        for sg, h in saved.items():
+            signal.signal(sg, h)
     gc.collect()
     fd1 = count_fds()
     left = scan_children()
@@ -499,7 +666,7 @@ def main():
             continue
         try:
             r = run_batch(c)
-            if any(i.get('hang') or i.get('ticks_seen') is False for i in r['invs']):
+            if any(i.get('hang') or i.get('ticks_seen') is False or i.get('stalled') for i in r['invs']):
                 after_hang = True      # a hang / a blocked loop has been established; do not pay the watchdog again
         except BaseException as ex:   # harness-level failure
             r = {'error': repr(ex)}
